@@ -48,10 +48,10 @@ class IsValidBackdoor(Contract):
         Zs = self.Zset(args)
         a = fresh("a", Atom)
         obs = Coll("list", Atom, z3.Lambda([a], z3.Or(a == X, Zs[a])))
-        th = REGISTRY_ATN.theory(ex, {"observed": obs}, old["_E"])
+        th = REGISTRY_ATN.theory(ex, {"observed": obs}, old["@E"])
         p = fresh("p", Atom)
         dconn = lambda s: z3.And(z3.Not(th.Z[Y]), z3.Or(th.R(s, Y, UP), th.R(s, Y, DOWN)), z3.Not(old["latents"][Y]))
-        return z3.And(result.z == z3.ForAll([p], z3.Implies(old["_E"][p, X], z3.Not(dconn(p)))),
+        return z3.And(result.z == z3.ForAll([p], z3.Implies(old["@E"][p, X], z3.Not(dconn(p)))),
                       graph_unchanged(args["self"].fields["model"], old))
 
 
